@@ -425,7 +425,10 @@ class BaseProperty(base.BaseObject):
         2
         3
         """
-        return list(self._values)
+        # The items of odML style tuple values are lists themselves; hand out
+        # copies of them as well, otherwise changing an item of the returned
+        # list changes the Property.
+        return [list(val) if isinstance(val, list) else val for val in self._values]
 
     @values.setter
     def values(self, new_value):
